@@ -71,6 +71,12 @@ def gen(rng, i, tier):
         else:
             v = rng.choice([F(1), F(1), F(2), F(-3), F(1, 2), F(7, 4)])
             case["value"] = [v.numerator, v.denominator]
+            if rng.random() < 0.12:
+                # a model in very small (or very large) units: the scale of the coefficients must not matter
+                e = rng.choice([-1, -1, -1, 1]) * rng.randint(51, 90)
+                t = [(k, c * F(2) ** e) for k, c in t]
+                case["terms"] = G.jraw(t)
+                case["scaled"] = e
             # the default value=1 is an int: 1 / max is a float, exact only when max|coef| is a power of two
             obj = build({"kind": kind, "terms": G.jraw(t)})
             M = max((abs(C.toF(c)) for c in obj.values()), default=F(0))
@@ -279,6 +285,8 @@ def nontrivial(case, out):
 
 def tags(case, out):
     t = [case["op"] + ":" + ("dict" if case["kind"] == "dict" else "object"), "kind:" + case["kind"]]
+    if case.get("scaled"):
+        t.append("normalize:coefficients-scaled-by-2**%s" % ("-51..-90" if case["scaled"] < 0 else "51..90"))
     if "error" in out:
         t.append("error:" + out["error"])
     return t
